@@ -3,6 +3,8 @@
 Correspondence K1 of store/fetch through every accessor against DC.Model.Disk /
 DC.Model.Cache, for a value alphabet x lengths around disk_min_file_size x
 thresholds x pickle protocols x Disk/JSONDisk; theorems: lean/properties.json."""
+import os
+
 import gen
 from props import base, refdict
 
@@ -27,11 +29,80 @@ def acceptor(hist, io):
     return None
 
 
+class FlakyStream:
+    """a readable binary stream that delivers `chunk` bytes per read and fails once, at read number
+    `fail_at`, with OSError (a socket time-out); later reads deliver the rest"""
+
+    def __init__(self, data, chunk, fail_at):
+        self.data, self.chunk, self.fail_at, self.pos, self.calls = data, chunk, fail_at, 0, 0
+
+    def read(self, n=-1):
+        self.calls += 1
+        if self.calls == self.fail_at:
+            raise OSError('timed out')
+        out = self.data[self.pos:self.pos + self.chunk]
+        self.pos += len(out)
+        return out
+
+
+def flaky_stream_probe(rng, n):
+    """a value that cannot be stored is rejected, never silently altered: a stream that fails in the
+    middle either raises out of set/add/push (and the key keeps what it had) or is stored whole"""
+    import shutil
+    import tempfile
+    import diskcache
+    root = os.environ.get('VERIF_SCRATCH') or tempfile.gettempdir()
+    bad = []
+    for i in range(n):
+        d = tempfile.mkdtemp(prefix='flaky-', dir=root)
+        try:
+            c = diskcache.Cache(d, disk_min_file_size=rng.choice([0, 8, 32768]))
+            data = bytes(rng.randrange(256) for _ in range(rng.randint(1, 90)))
+            chunk = rng.randint(1, 30)
+            fail_at = rng.randint(1, len(data) // chunk + 2)
+            how = rng.choice(['set', 'add', 'push'])
+            old = rng.choice([None, b'old-value'])
+            if old is not None and how == 'set':
+                c.set('k', old)
+            st = FlakyStream(data, chunk, fail_at)
+            key = 'k'
+            try:
+                if how == 'set':
+                    ok = c.set('k', st, read=True)
+                elif how == 'add':
+                    ok = c.add('k', st, read=True)
+                else:
+                    key = c.push(st, read=True)
+                    ok = True
+                raised = None
+            except OSError as e:
+                ok, raised = False, e
+            got = c.get(key, default=None)
+            files = sorted(f for _, _, fs in os.walk(d) for f in fs if f.endswith('.val'))
+            what = None
+            if raised is None and ok and got != data:
+                what = '%s(stream) reported success but the value read back is %r, the stream delivered %r' % (how, got, data)
+            elif raised is not None and got != (old if how == 'set' else None):
+                what = '%s(stream) raised %r but the key now holds %r (before: %r)' % (how, raised, got, old)
+            elif raised is not None and len(files) != (1 if (old is not None and how == 'set' and c.disk_min_file_size <= len(old)) else 0):
+                what = '%s(stream) raised %r and left value files behind: %r' % (how, raised, files)
+            if what:
+                bad.append({'what': what, 'data': data.hex(), 'chunk': chunk, 'fail_at': fail_at, 'how': how, 'old': old is not None})
+            c.close()
+        finally:
+            shutil.rmtree(d, ignore_errors=True)
+    return bad
+
+
 def run(tier, seed, rng, known, replay):
     if replay:
         return base.replay_file(replay, 'C01', ('result', 'state'), acceptor)
     hists = gen.c01_histories(rng, tier)
     r = base.check_histories('C01', hists, ('result', 'state'), acceptor=acceptor, known=known)
+    n_flaky = 150 if tier == 'quick' else 3000
+    for b in flaky_stream_probe(rng, n_flaky)[:2]:
+        r['violations'].append({'replay': dict(b, property='C01', kind='flaky-stream-probe', acceptor=b['what']),
+                                'found_input': True, 'what': b['what']})
     dist, distinct = base.op_distribution(hists, r['impl_out'])
     kinds = {}
     for h in hists:
@@ -42,10 +113,10 @@ def run(tier, seed, rng, known, replay):
         'evaluations': len(hists),
         'distinct_nontrivial': len({(str(h['cfg']), repr(h['ops'][0]['v'])[:200], h['ops'][0].get('read', 0)) for h in hists}),
         'rule': 'one history per (threshold, disk, protocol, value): store by set/add/push, read back through get/[]/read/pop/peekitem/peek/pull; '
-                'values = type x length in {0,1,m-1,m,m+1,2m} x code-point alphabet {a,CR,LF,NUL,U+0085,U+2028,U+1F600,lone surrogate} + numeric and container corner cases; '
+                'plus subclasses of str/bytes/int/float and str/int enums (exact-type dispatch), and streams that fail once in the middle of a read; values = type x length in {0,1,m-1,m,m+1,2m} x code-point alphabet {a,CR,LF,NUL,U+0085,U+2028,U+1F600,lone surrogate} + numeric and container corner cases; '
                 'distinct = distinct (configuration, value) pairs',
         'samples': [base.sample(hists[0], r['impl_out'][0]), base.sample(hists[len(hists) // 2], r['impl_out'][len(hists) // 2])],
         'traces': len(hists),
-        'dist': dict(dist, value_types=kinds, histories=len(hists), divergent=r['divergent'], timing=r['stats']),
+        'dist': dict(dist, value_types=kinds, histories=len(hists), divergent=r['divergent'], timing=r['stats'], flaky_stream_probes=n_flaky),
         'violations': r['violations'], 'known': r['known'],
     }
